@@ -130,6 +130,29 @@ def main(argv):
                     json.dump(doc, open(os.path.join(dst, "replay-%s-%s" % (p, fn)), "w"), indent=1, sort_keys=True)
             print("kept as", dst, "caught:", caught)
         return 0 if ok else 1
+    if argv[0] == "benign":
+        # a behaviour-preserving refactoring: the suite must pass and the checks must stay SILENT
+        cand, prop, name = argv[1], argv[2], argv[3]
+        also = argv[5].split(",") if len(argv) > 5 and argv[4] == "--also" else []
+        open(os.path.join(cand, "demo.py"), "w").write("import clikit\n")  # no demo for a refactoring
+        res = evaluate(cand, [prop] + also)
+        silent = all(c["rc"] == 0 for c in res["checks"].values())
+        print("applies=%s suite=%s -> checks %s" % (res.get("applies"), res.get("suite_tail"), {p: c["rc"] for p, c in res["checks"].items()}))
+        for p_, c in res["checks"].items():
+            if c["rc"] != 0:
+                print("   ALARM %s: %s %s" % (p_, "; ".join(x[:200] for x in c["oracles"][:5]), c["tail"][-300:]))
+        if res.get("applies") and res.get("suite_rc") == 0:
+            dst = os.path.join(VERIF, "seeded_benign", "%s-%s" % (prop, name))
+            os.makedirs(dst, exist_ok=True)
+            for f in ("patch.diff", "notes.md"):
+                if os.path.exists(os.path.join(cand, f)):
+                    shutil.copy(os.path.join(cand, f), os.path.join(dst, f))
+            meta = {"property": prop, "name": name, "kind": "behaviour-preserving refactoring: checks must stay silent",
+                    "suite_with_patch": res.get("suite_tail"),
+                    "checks": {p_: {"rc": c["rc"], "oracles": c["oracles"][:6]} for p_, c in res["checks"].items()},
+                    "silent": silent}
+            json.dump(meta, open(os.path.join(dst, "meta.json"), "w"), indent=1)
+        return 0 if silent else 1
     if argv[0] == "recheck":
         base = os.path.join(VERIF, "seeded")
         bad = 0
